@@ -1,4 +1,5 @@
 """C02 Boolean connectives, ITE, constants: terminal cases + wiring"""
+import ector
 import ecof
 import eeval
 import ereduce
@@ -74,4 +75,10 @@ def run(ctx):
     ctx.floor("E-TABLE.cof", "interpreted cofactor situations", n, 25)
     n = ecof.check_accessors(ctx, F)
     ctx.floor("E-TABLE.cof.access", "accessor situations", n, 3)
+    ctx.explain("E-TABLE.ctor: f_edge / t_edge / u_edge / constant_edge / var_edge / not_var_edge of the function types (ST and "
+                "MT) are interpreted and must build the constant terminal resp. a node created at var_to_level(var) whose "
+                "children are (true, false) / (1, 0) / (true, unknown, false) in that order (BCDD: (T, !T) behind an untagged "
+                "edge; ZBDD: (tautology(level + 1), Empty) as the first node of its chain); the default not_var is not(var).")
+    n = ector.run(ctx, F, only=("bdd", "bcdd", "zbdd"))
+    ctx.floor("E-TABLE.ctor", "interpreted constructor bodies", n, 15)
     ctx.not_decided = "the default value of variables missing from eval's arguments, behaviour under memory exhaustion and parallel scheduling"
